@@ -10,4 +10,10 @@ var verifHarnesses = map[string]func(){
 	"VerifC02NextValidators": VerifC02NextValidators,
 	"VerifC03MinPower": VerifC03MinPower,
 	"VerifC03OptOut": VerifC03OptOut,
+	"VerifC09MeterStep": VerifC09MeterStep,
+	"VerifC08SlashPacket": VerifC08SlashPacket,
+	"VerifC12EndBlockCIS": VerifC12EndBlockCIS,
+	"VerifC10TimeQueue": VerifC10TimeQueue,
+	"VerifC20UpdateQueued": VerifC20UpdateQueued,
+	"VerifC20BeginBlock": VerifC20BeginBlock,
 }
